@@ -32,7 +32,8 @@ func genReports(r *rng, wild bool) []rtcp.ReceptionReport {
 	}
 	out := make([]rtcp.ReceptionReport, n)
 	for i := range out {
-		out[i] = genReport(r, wild && r.chance(1, 8))
+		// an over-limit count is only interesting when nothing else is wrong with the value
+		out[i] = genReport(r, wild && n <= 31 && r.chance(1, 8))
 	}
 	return out
 }
@@ -86,14 +87,14 @@ func genSDES(r *rng, wild bool) *rtcp.SourceDescription {
 	n := countFor(r, wild, 31)
 	s := &rtcp.SourceDescription{}
 	for i := 0; i < n; i++ {
-		s.Chunks = append(s.Chunks, genChunk(r, wild && r.chance(1, 4)))
+		s.Chunks = append(s.Chunks, genChunk(r, wild && n <= 31 && r.chance(1, 4)))
 	}
 	return s
 }
 
 func genBYE(r *rng, wild bool) *rtcp.Goodbye {
 	n := countFor(r, wild, 31)
-	g := &rtcp.Goodbye{Reason: genText(r, wild, 255)}
+	g := &rtcp.Goodbye{Reason: genText(r, wild && n <= 31, 255)}
 	for i := 0; i < n; i++ {
 		g.Sources = append(g.Sources, r.u32())
 	}
@@ -271,14 +272,21 @@ func genStatuses(r *rng) []uint16 {
 	if r.chance(1, 30) {
 		n = r.pick(8191, 8192, 8200)
 	}
-	out := make([]uint16, n)
 	mode := r.intn(4)
+	if r.chance(1, 12) { // long runs of one status: run lengths that need the high bits of the 13-bit field
+		n = r.pick(4095, 4096, 4097, 5000, 8190, 8191)
+		mode = 4
+	}
+	out := make([]uint16, n)
+	fill := uint16(r.pick(0, 0, 1, 2))
 	for i := range out {
 		switch mode {
 		case 0:
 			out[i] = uint16(r.intn(2))
 		case 1:
 			out[i] = uint16(r.intn(3))
+		case 4:
+			out[i] = fill
 		case 2: // long runs
 			if i > 0 && r.chance(9, 10) {
 				out[i] = out[i-1]
@@ -309,10 +317,16 @@ func chunkStatuses(r *rng, st []uint16) []rtcp.PacketStatusChunk {
 			}
 		}
 		choice := r.intn(3)
+		if run >= 4095 && r.chance(3, 4) {
+			choice = 3 // one run-length chunk for the whole run
+		}
 		if choice == 1 && !oneBitOK {
 			choice = 2
 		}
 		switch choice {
+		case 3:
+			out = append(out, &rtcp.RunLengthChunk{Type: rtcp.TypeTCCRunLengthChunk, PacketStatusSymbol: st[i], RunLength: uint16(run)})
+			i += run
 		case 0:
 			if r.chance(1, 2) && run > 1 {
 				run = 1 + r.intn(run)
